@@ -79,6 +79,17 @@ def build_harness(tags="sqlite,verif", race=False, extra_overlay=None, name="har
     cmd = ["go", "test", "-c", "-vet=off", "-mod=mod", "-modfile=" + modfile, "-tags", tags, "-overlay", ov, "-o", out]
     if race:
         cmd.append("-race")
+    if os.environ.get("VERIF_COVER"):
+        # development aid: which statements of ory/keto do the checks execute at all? The cover tool does not read overlays,
+        # so the harness files are copied into the tree - which therefore must be a scratch worktree, never /repo.
+        if os.path.realpath(REPO) == "/repo":
+            raise Inconclusive("VERIF_COVER needs VERIF_REPO to point at a scratch worktree")
+        for dst, src in overlay["Replace"].items():
+            os.makedirs(os.path.dirname(dst), exist_ok=True)
+            shutil.copy(src, dst)
+        cmd = [c for c in cmd if c not in ("-overlay", ov)]
+        before = repo_status()
+        cmd += ["-cover", "-coverpkg=github.com/ory/keto/internal/...,github.com/ory/keto/ketoapi/...,github.com/ory/keto/proto/..."]
     cmd.append("./internal/zzverif/")
     t = time.time()
     p = subprocess.run(cmd, cwd=REPO, env=go_env(), capture_output=True, text=True)
@@ -146,6 +157,9 @@ def run_harness(binary, family, inp, shards=None, seed_=None, timeout=3600, extr
         cmd = [binary, "-test.run", "^TestVerif$", "-test.timeout", "%ds" % timeout, "-verif.family", family,
                "-verif.in", inpath, "-verif.out", outp, "-verif.shard", "%d/%d" % (i, shards),
                "-verif.seed", str(seed_)] + (extra or [])
+        if os.environ.get("VERIF_COVER"):
+            os.makedirs(os.environ["VERIF_COVER"], exist_ok=True)
+            cmd.append("-test.coverprofile=%s/%s_%d_%d.cov" % (os.environ["VERIF_COVER"], family, time.time_ns(), i))
         lf = open(outp + ".log", "w")
         procs.append((subprocess.Popen(cmd, cwd=sc, stdout=lf, stderr=subprocess.STDOUT, env=env), outp, lf))
     recs = []
@@ -201,6 +215,17 @@ def tlc(module, cfg, workers=None, timeout=1800, heap="4g", extra=None, files=No
     for name, content in (files or {}).items():
         with open(os.path.join(d, name), "w") as fh:
             fh.write(content)
+        if os.environ.get("VERIF_DUMP_CFG") and name.endswith(".cfg"):
+            # documentation aid: keep a copy of every configuration the checks run TLC with (spec/cfg/)
+            dd = os.path.join(SPEC, "cfg")
+            os.makedirs(dd, exist_ok=True)
+            tag = "%s__%s__%s" % (module, os.environ["VERIF_DUMP_CFG"], name)
+            k = 0
+            while os.path.exists(os.path.join(dd, tag)) and open(os.path.join(dd, tag)).read() != content:
+                k += 1
+                tag = "%s__%s__%d_%s" % (module, os.environ["VERIF_DUMP_CFG"], k, name)
+            with open(os.path.join(dd, tag), "w") as fh2:
+                fh2.write(content)
     workers = workers or NCPU
     cmd = ["java", "-XX:+UseParallelGC", "-Xms" + heap, "-Xmx" + heap, "-XX:-UseAdaptiveSizePolicy", "-Xss64m"]
     cmd += (javaopts or [])
